@@ -16,7 +16,14 @@ partial def stmtOfJson (j : Json) : DStmt :=
   | "imp" => .imp (importOfJson j)
   | "bind" => .bind (jstrs (jfield j "sel")) (jstr (jfield j "arg")) (jint (jfield j "v"))
   | "bindref" => .bindRef (jstrs (jfield j "sel")) (jstr (jfield j "arg")) (jstrs (jfield j "ref")) (jnat (jfield j "scope"))
+  | "block" => .block (jstrs (jfield j "sel"))
   | _ => .unit ((jarr (jfield j "body")).map stmtOfJson)
+
+def skipOfJson (j : Json) : DSkip :=
+  match jstr (jfield j "k") with
+  | "all" => .all
+  | "names" => .names ((jarr (jfield j "v")).map jstrs)
+  | _ => .no
 
 def worldOfJson (j : Json) : World :=
   { modules := (jarr (jfield j "modules")).map (fun kv => (jstrs (jidx kv 0), jnat (jidx kv 1))),
@@ -42,7 +49,7 @@ def imJson (case : Json) : Json :=
 def run (case : Json) : Json :=
   let w := worldOfJson (jfield case "world")
   let units := (jarr (jfield case "units")).map (fun u => (jarr u).map stmtOfJson)
-  let (b, e) := runUnits w [] units
+  let (b, e) := runUnits w (skipOfJson (jfield case "skip")) [] units
   let rows := b.map (fun (o, kv) => Json.arr #[Json.num (o : Nat),
     Json.arr ((kv.map (fun (a, v) => Json.arr #[.str a, Json.num v])).toArray)])
   Json.mkObj [("bindings", .arr rows.toArray),
